@@ -130,6 +130,7 @@ def BOUNDS(tier):
 def shards(tier):
     out = [{"part": "fn", "name": name} for name in sorted(SIGS)]
     out += [{"part": "builtin"}, {"part": "range"}, {"part": "arity"}]
+    out += [{"part": "fresh", "name": name} for name in sorted(rt.BUILTINS)]
     return out
 
 
@@ -153,7 +154,11 @@ def judge(text, verdict, outcome, calls):
 
 
 def check_one(text, lo=None, hi=None, how="subclass"):
-    if lo is None:
+    if how == "fresh":
+        # a new plain environment for this one query: it is the first query the environment ever sees
+        verdict = rt.classify(text)
+        env = impl.jp.JSONPathEnvironment()
+    elif lo is None:
         verdict = rt.classify(text, registry=REGISTRY)
         env = probe_env()
     else:
@@ -163,7 +168,9 @@ def check_one(text, lo=None, hi=None, how="subclass"):
     outcome = impl.run(env.compile, text)
     v = judge(text, verdict, outcome, CALLS["n"] - before)
     if v is not None:
-        if lo is not None:
+        if how == "fresh":
+            v["case"]["configured"] = how
+        elif lo is not None:
             v["case"]["range"] = [lo, hi]
             if how != "subclass":
                 v["case"]["configured"] = how
@@ -211,6 +218,20 @@ def run_shard(desc):
         for args in ([], ["1"], ["@.a"], ["@.*", "1"]):
             for q in positions(f"nosuch({','.join(args)})"):
                 do(q)
+    elif part == "fresh":
+        # the standard functions again, every query on an environment of its own (whatever an
+        # environment prepares lazily on first use must not let the first query through unchecked)
+        name = desc["name"]
+        params, _ = rt.BUILTINS[name]
+        for args in itertools.product(ARG_SHAPES, repeat=len(params)):
+            call = f"{name}({','.join(args)})"
+            for q in positions(call):
+                do(q, how="fresh")
+        for n in range(0, 4):
+            if n != len(params):
+                for shape in ("1", "@.a", "(@.a)", "!@.a"):
+                    for q in positions(f"{name}({', '.join([shape] * n)})")[:4]:
+                        do(q, how="fresh")
     elif part == "arity":
         for name, (params, _) in sorted(REGISTRY.items()):
             for n in range(0, 4):
